@@ -420,6 +420,37 @@ def dispatcher_checks(chk, want):
                 real = al.canon_real(kn, res)
             elif entry == 'pw_align':
                 kn = route(c, mode, 1)
+                if want == 'score' and rng.random() < 0.5:
+                    # the caller's scorer together with distance=True: the distance is the one of the similarity under THAT scorer
+                    chk.hist['pw_align with a scorer and distance=True'] += 1
+                    given = dict(c['scorer'])
+                    try:
+                        rd = pw.pw_align(wa, wb, gop=c['gop'], scale=c['scale'], scorer=given, mode=mode, distance=True)
+                        rs = pw.pw_align(wa, wb, gop=c['gop'], scale=c['scale'], scorer=dict(c['scorer']), mode=mode)
+                        sA_ = sum([c['scorer'][x, x] for x in a])
+                        sB_ = sum([c['scorer'][x, x] for x in b])
+                        exp_d = 1 - (2 * rs[2]) / (sA_ + sB_)
+                        if given != c['scorer']:
+                            fails.append((entry, mode, c, 'pw_align(distance=True) changed the scorer it was given'))
+                        elif not (rd[2] == exp_d or abs(rd[2] - exp_d) <= 1e-12 or (rd[2] != rd[2] and exp_d != exp_d)):
+                            fails.append((entry, mode, c, 'pw_align(distance=True) returns %r, 1 - 2*sim/(selfA+selfB) under the given scorer is %r (sim %r)' % (rd[2], exp_d, rs[2])))
+                    except ZeroDivisionError:
+                        pass
+                if want == 'rows' and rng.random() < 0.4:
+                    # the wrapper's own scorer and distance=True (the normalised distance in place of the similarity): the rows are rows
+                    # of the two inputs all the same, and the caller's sequences stay what they were
+                    chk.hist['pw_align with its default scorer and distance=True'] += 1
+                    wa2 = list(wa) if isinstance(wa, list) else wa
+                    wb2 = list(wb) if isinstance(wb, list) else wb
+                    try:
+                        rd = pw.pw_align(wa2, wb2, gop=c['gop'], scale=c['scale'], mode=mode, distance=True)
+                        e_d = al.oracle_c01(kn, c, al.canon_real(kn, rd))
+                        if not e_d and (list(wa2) != list(wa) or list(wb2) != list(wb)):
+                            e_d = 'the sequence passed in was changed: %r -> %r' % (list(wa), list(wa2))
+                    except ZeroDivisionError:
+                        e_d = None
+                    if e_d:
+                        fails.append((entry + '(distance=True, default scorer)', mode, c, e_d))
                 r = pw.pw_align(wa, wb, gop=c['gop'], scale=c['scale'], scorer=c['scorer'], mode=mode)
                 real, dist = al.canon_real(kn, r), None
             elif entry == 'nw_align':
